@@ -1,6 +1,7 @@
 package logqlmetric
 
 import (
+	"cmp"
 	"container/heap"
 	"slices"
 
@@ -146,6 +147,12 @@ func (i *vectorAggHeapIterator) Next(r *Step) bool {
 		heap   *sampleHeap
 	}
 	result := map[GroupingKey]*group{}
+
+	// Input order is not defined (samples come from a map iteration), so order samples
+	// by key to select the same series among equal values every time.
+	slices.SortFunc(step.Samples, func(a, b Sample) int {
+		return cmp.Compare(a.Set.Key(), b.Set.Key())
+	})
 
 	for _, s := range step.Samples {
 		metric := i.grouper(s.Set, i.groupLabels...)
